@@ -43,7 +43,7 @@ def run(ck):
     except Exception as e:
         ck.machinery_error("translator failed: %r" % (e,)); return
     if not ck.build_driver(): return
-    if not ck.prove():
+    if not ck.prove(["ZixModel.Properties.C15", "ZixModel.Properties.C15Link", "ZixModel.Properties.C15LinkInst"]):
         ck.report_proof_failure("theorems about the filesystem model / regenerated file-type table no longer build")
     srcs = ["h_c15.c"] + [os.path.join(REPO, "src", f) for f in ["posix/filesystem_posix.c", "system.c", "errno_status.c", "filesystem.c", "path.c", "string_view.c", "allocator.c", "posix/system_posix.c"]]
     exe = ck.cc("h_c15", srcs)
